@@ -12,6 +12,7 @@ fork on rem.  Every top-level return is handed, with its state, to a claim funct
 is reported as possible non-termination.  Nothing is executed: the MIR comes from the facts of the current tree."""
 import re
 from collections import deque
+from . import mir
 
 CAP = 24
 BIG = CAP + 1
@@ -488,9 +489,11 @@ class Machine:
         if op['k'] in ('copy', 'move'):
             return self.place_get(st, locs, op['place'])
         if op['k'] == 'const':
+            if op['ty'] == 'char':
+                cv = mir.char_const(op)
+                if cv is not None:
+                    return ('chrconst', cv)
             if op.get('val') is not None:
-                if op['ty'] == 'char':
-                    return ('chrconst', op['val'])
                 return N('abs', op['val'])
             if op.get('bytes') is not None:
                 return ('lit', bytes(op['bytes']))
@@ -817,10 +820,15 @@ class Machine:
             if op in ('Lt', 'Le', 'Gt', 'Ge', 'Eq', 'Ne'):
                 if a[0] == 'chr' or b[0] == 'chr':
                     c, k2 = (a, b) if a[0] == 'chr' else (b, a)
-                    if not (k2[0] == 'chrconst' or (k2[0] == 'n' and k2[1] == 'abs')) or op not in ('Eq', 'Ne'):
+                    if not (k2[0] == 'chrconst' or (k2[0] == 'n' and k2[1] == 'abs')):
                         raise Unsupported('character comparison')
                     cv = k2[1] if k2[0] == 'chrconst' else k2[2]
-                    return [(N('abs', int(r if op == 'Eq' else not r)), s2) for r, s2 in self.split(st, c[1], lambda lo, hi: self._one(lo, hi, cv))]
+                    if op in ('Eq', 'Ne'):
+                        return [(N('abs', int(r if op == 'Eq' else not r)), s2) for r, s2 in self.split(st, c[1], lambda lo, hi: self._one(lo, hi, cv))]
+                    # an ordering test against a constant (a range pattern `'a'..='z'`): decided per class of the alphabet partition, which has a cut
+                    # at every constant the code compares with
+                    op2 = op if c is a else {'Lt': 'Gt', 'Le': 'Ge', 'Gt': 'Lt', 'Ge': 'Le'}[op]
+                    return [(N('abs', int(r)), s2) for r, s2 in self.split(st, c[1], lambda lo, hi: self._ord(lo, hi, cv, op2))]
                 if a[0] == 'lb' or b[0] == 'lb':
                     # the unmodelled end of the buffer (mirror mode): only a bounds test that holds against the lower bound is meaningful
                     if b[0] == 'lb' and op in ('Lt', 'Le'):
@@ -851,6 +859,13 @@ class Machine:
         if k == 'cast':
             return [(self.operand(st, locs, rv['op']), st)]
         raise Unsupported('rvalue ' + k)
+
+    @staticmethod
+    def _ord(lo, hi, val, op):
+        yes, no = {'Lt': (hi < val, lo >= val), 'Le': (hi <= val, lo > val), 'Gt': (lo > val, hi <= val), 'Ge': (lo >= val, hi < val)}[op]
+        if not (yes or no):
+            raise Unsupported('alphabet partition does not separate a character constant of an ordering test')
+        return yes
 
     @staticmethod
     def _one(lo, hi, val):
